@@ -307,10 +307,11 @@ impl Topology<(), ()> {
     #[must_use]
     #[allow(clippy::missing_panics_doc)]
     pub fn spanned(root: ModuleRef) -> Self {
-        let mut modules = vec![root];
+        // FIFO: the node indices handed out below assume that queued modules are visited in order.
+        let mut modules = std::collections::VecDeque::from([root]);
         let mut this = Self::default();
 
-        while let Some(module) = modules.pop() {
+        while let Some(module) = modules.pop_front() {
             let gates = module.gates();
 
             this.nodes.push(Node { data: (), module });
@@ -342,7 +343,7 @@ impl Topology<(), ()> {
                             {
                                 src_idx + 1 + offset
                             } else {
-                                modules.push(end.owner());
+                                modules.push_back(end.owner());
                                 src_idx + modules.len()
                             }
                         });
